@@ -33,6 +33,23 @@ def run(prop, tier, replay=None):
             v["id"] = i + 1
         states, trans = res.distinct, res.generated
         log(f"GEN ConfigRoundTrip[{tier}]: {len(vectors)} configurations x forms, {res.wall:.0f}s")
+        # sweep: one character (every code point in the range / step) alone, inside, at the start and at the end of an
+        # environment value and of a wait path, both forms; judged by the same C17ok
+        unset = {k: "unset" for k in vectors[0]["cfg"]}
+        cps = list(range(0, 0x100)) + (list(range(0x100, 0x3000)) + list(range(0x3000, 0x110000, 101)) if tier == "thorough" else list(range(0x100, 0x110000, 211)))
+        cps = [c for c in cps if not 0xD800 <= c <= 0xDFFF]
+        ctxs = ("alone", "mid", "lead", "trail") if tier == "thorough" else ("alone", "mid")
+        nsweep = 0
+        for c in cps:
+            for ctx in ctxs:
+                for form in ("one_liner", "front_matter"):
+                    cls = f"cp:{c:x}:{ctx}"
+                    vectors.append({"id": len(vectors) + 1, "cfg": dict(unset), "env": [cls, "plain"], "form": form, "sweep": True})
+                    if c != 0:          # (a path cannot hold NUL)
+                        vectors.append({"id": len(vectors) + 1, "cfg": dict(unset, wait=cls), "env": [], "form": form, "sweep": True})
+                    nsweep += 2
+        cov["sweep_vectors"] = nsweep
+        log(f"sweep: {len(cps)} code points x {len(ctxs)} contexts x 2 forms as environment value and as wait path")
     vpath, rpath = os.path.join(work, "vectors.ndjson"), os.path.join(work, "records.ndjson")
     write_ndjson(vpath, vectors)
     harness(["yaml-replay", "--vectors", vpath, "--records", rpath])
@@ -55,7 +72,7 @@ def run(prop, tier, replay=None):
         if not o["rendered"]:
             keys = ["render-failed:" + o["detail"][:40]]
         elif not o["parsed"]:
-            culprits = [c for c in r["env"] if c not in ("plain",)] or [k + "=" + v for k, v in r["cfg"].items() if k == "wait" and v != "unset"] or ["?"]
+            culprits = [("char(U+%04X):%s" % (int(c.split(":")[1], 16), c.split(":")[2])) if c.startswith("cp:") else c for c in r["env"] if c not in ("plain",)] or [k + "=" + v for k, v in r["cfg"].items() if k == "wait" and v != "unset"] or ["?"]
             keys = [f"{r['form']}:does-not-parse:" + ("env=" + c if c in r["env"] else c) for c in culprits]
         else:
             diff = sorted(k for k in set(o["orig"]) | set(o["back"]) if o["orig"].get(k) != o["back"].get(k))
@@ -65,6 +82,10 @@ def run(prop, tier, replay=None):
                 cls = r["cfg"].get(base)
                 if base.startswith("VAR_"):
                     cls = r["env"][0 if base == "VAR_ONE" else 1]
+                if cls and cls.startswith("cp:"):       # swept character: the key names the character's category and the context
+                    import unicodedata
+                    cp = int(cls.split(":")[1], 16)
+                    cls = f"char({unicodedata.category(chr(cp))}{',U+%04X' % cp if cp < 0x100 or unicodedata.category(chr(cp)).startswith(('Z', 'C')) else ''}):{cls.split(':')[2]}"
                 keys.append(f"{r['form']}:changed:{k.split('.')[0] if '.' in k and not k.startswith('env') else ''}{'env' if base.startswith('VAR_') else base}={cls}")
         for key in sorted(set(keys)):
             V.violation(key, WHAT, {"vector": vec.get(rid, {k: r[k] for k in ("cfg", "env", "form")}), "rendered_text": o["text"], "detail": o["detail"],
